@@ -445,9 +445,9 @@ func emitNet(c *hxlib.Ctx, idx int, res *netResult, forCanary **netw) {
 		ds = append(ds, fmt.Sprintf("%s x%d", k, v))
 	}
 	sort.Strings(ds)
-	c.Note("net %d %s seed=%d: wall=%.1fs events=%d packets=%d (harness-made %d, duplicates %d, held %d) crashes=%d (cut inside an event %d, torn image %d) finalizes=%d byz-votes-delivered=%d node-traces=%d discarded=%v aborted=%q oracle=%q",
-		idx, cfg.Name, cfg.Seed, res.wall.Seconds(), nw.nEvents, len(nw.pool), nw.nByzPk, nw.nDup, nw.nHeld, nw.nCrashes, nw.nFused, nw.nTorn, finals, byzDelivered, usableNodes, ds, nw.aborted, oracle)
-	if oracle != "" || os.Getenv("C01_NOTES") != "" {
+	c.Note("net %d %s seed=%d: wall=%.1fs events=%d packets=%d (harness-made %d, duplicates %d, held %d) crashes=%d (cut inside an event %d, torn image %d) finalizes=%d max-round=%d locks=%d relocks=%d unlocks=%d byz-votes-delivered=%d node-traces=%d discarded=%v aborted=%q oracle=%q",
+		idx, cfg.Name, cfg.Seed, res.wall.Seconds(), nw.nEvents, len(nw.pool), nw.nByzPk, nw.nDup, nw.nHeld, nw.nCrashes, nw.nFused, nw.nTorn, finals, nw.maxRound, nw.nLock, nw.nRelock, nw.nUnlock, byzDelivered, usableNodes, ds, nw.aborted, oracle)
+	if oracle != "" || nw.aborted != "" || os.Getenv("C01_NOTES") != "" {
 		for _, n := range nw.notes {
 			c.Note("   net %d: %s", idx, n)
 		}
